@@ -98,8 +98,9 @@ type M struct {
 	// AllErrors accumulates the error keys ("xor:<id>", "inc:<id>", "task:<id>").
 	AllErrors []string
 	// groups: event-based gateway group id -> member tokens
-	groups  map[int][]*Token
-	parSeen map[string]map[int]bool
+	groups   map[int][]*Token
+	parCount map[string][]int
+	parFired map[string]int
 	// AsIs switches the boundary-event rules to what the engine is KNOWN to
 	// do instead of what BPMN says (known findings C10-F1/F2/F3): a boundary
 	// event's listener is a token of the instance from the first activation
